@@ -222,9 +222,9 @@ def Num.fresh : Num → Prim
 def Num.fallbackVr : Num → VR
   | .i32 _ => .SL | .u32 _ => .UL | .i16 _ => .SS | .u16 _ => .US | .f32 _ => .FL | .f64 _ => .FD
 
-/-- `empty_value_for_vr`: an empty value of the kind that holds the values of the VR (repaired
-behaviour, finding C13 `value-type-incompatible-with-vr`: pushed values are converted to that kind;
-the code as found created the value in the kind of the pushed number) -/
+/-- an empty value of the kind that holds the values of the VR — used only by the *repaired*
+`Push*` semantics (`pushImplRepaired`, finding C13 `value-type-incompatible-with-vr`); the shipped
+code creates the value in the kind of the pushed number -/
 def typedEmpty : VR → Prim
   | .US | .OW => .u16 []
   | .SS => .i16 []
@@ -272,6 +272,21 @@ def Prim.extendNum (n : Num) : Prim → Option Prim
   | .f64 l => some (.f64 (l ++ [n.toF]))
   | .tags _ | .dates _ => none
 
+/-- does the variant of a primitive value suit the VR it sits under (the writer emits the variant's
+bytes, the reader decodes by VR) -/
+def primSuits (vr : VR) : Prim → Bool
+  | .empty => true
+  | .str _ | .strs _ =>
+    [VR.AE, .AS, .CS, .DS, .IS, .LO, .LT, .PN, .SH, .ST, .UC, .UI, .UR, .UT, .UN, .OB].contains vr
+  | .u8 _ => [VR.OB, .UN].contains vr
+  | .i16 _ | .u16 _ => [VR.US, .SS, .OW].contains vr
+  | .i32 _ | .u32 _ => [VR.UL, .SL, .OL].contains vr
+  | .i64 _ | .u64 _ => [VR.UV, .SV, .OV].contains vr
+  | .f32 _ => [VR.FL, .OF].contains vr
+  | .f64 _ => [VR.FD, .OD].contains vr
+  | .tags _ => vr == .AT
+  | .dates _ => [VR.DA, .TM, .DT].contains vr
+
 /-! ### leaf operations, as the code does them -/
 
 /-- `Value::from(new_value)`, or an empty data set sequence for an empty value under VR SQ -/
@@ -301,14 +316,32 @@ def Val.truncate (n : Nat) : Val → Val
   | .pix bot frags => .pix bot (frags.take n)
 
 /-- the VR after `SetVr(nvr)`: data set sequences and pixel data fragment sequences keep theirs
-(repaired behaviour, finding C13 `sequence-under-non-sq-vr`; the code as found took `nvr` always) -/
+(behaviour since fix d5a462c; before, `nvr` was taken always) -/
 def setVrOf (nvr vr : VR) : Val → VR
   | .prim _ => nvr
   | _ => vr
 
-/-- `apply_push_*_impl`: remove the entry, extend, re-insert — or restore it and fail; a missing
-attribute is created with a value of the kind of its VR (never under VR SQ) -/
-def pushImpl (dict : Nat → Option VR) (o : Obj) (tag : Nat) (ext mk : Prim → Option Prim)
+/-- `apply_push_*_impl` as shipped: remove the entry, extend, re-insert — or restore it and fail; a
+missing attribute is created with `fresh`, the value in the kind of the *pushed* item, under the
+dictionary VR -/
+def pushImpl (dict : Nat → Option VR) (o : Obj) (tag : Nat) (ext : Prim → Option Prim)
+    (fresh : Prim) (fallback : VR) : Obj × Option Err :=
+  match o.get tag with
+  | some (vr, v) =>
+    let o' := o.erase tag
+    match v with
+    | .prim p =>
+      match ext p with
+      | some p' => (o'.set tag vr (.prim p'), none)
+      | none => (o'.set tag vr (.prim p), some .modify)
+    | .pix b f => (o'.set tag vr (.pix b f), some .incompatibleTypes)
+    | .seq items => (o'.set tag vr (.seq items), some .incompatibleTypes)
+  | none => (o.set tag ((dict tag).getD fallback) (.prim fresh), none)
+
+/-- the proposed repair of `apply_push_*_impl` (findings/C13-value-type-incompatible-with-vr.md):
+an emptied value first takes the kind of its VR, a missing attribute is created with a value of the
+kind of its VR (never under VR SQ) -/
+def pushImplRepaired (dict : Nat → Option VR) (o : Obj) (tag : Nat) (ext mk : Prim → Option Prim)
     (fallback : VR) : Obj × Option Err :=
   match o.get tag with
   | some (vr, v) =>
@@ -345,8 +378,8 @@ def applyLeaf (dict : Nat → Option VR) (o : Obj) (tag : Nat) (a : Action) : Ob
   | .setStrIfMissing s => (if (o.get tag).isNone then changeValue dict o tag (.str s) else o, none)
   | .replace p => (if (o.get tag).isSome then changeValue dict o tag p else o, none)
   | .replaceStr s => (if (o.get tag).isSome then changeValue dict o tag (.str s) else o, none)
-  | .pushStr s => pushImpl dict o tag (Prim.extendStr s) (Prim.freshStr s) .UN
-  | .pushNum n => pushImpl dict o tag (Prim.extendNum n) (Prim.extendNum n) n.fallbackVr
+  | .pushStr s => pushImpl dict o tag (Prim.extendStr s) (.str s) .UN
+  | .pushNum n => pushImpl dict o tag (Prim.extendNum n) n.fresh n.fallbackVr
   | .truncate n =>
     (match o.get tag with
      | some (vr, v) => o.set tag (vrAfterUpdate vr v) (v.truncate n)
@@ -395,10 +428,23 @@ def resetSpec (dict : Nat → Option VR) (tag : Nat) (cur : Option (VR × Val)) 
   let vr := match cur with | some (vr, _) => vr | none => (dict tag).getD .UN
   some (vr, newValue vr p)
 
-/-- "append … as an additional value, creating the attribute if it does not exist yet": the
+/-- "append … as an additional value, creating the attribute if it does not exist yet" (as
+shipped: the created value is `fresh`, the pushed item in its own kind); a value that cannot be
+extended is an error and nothing changes -/
+def pushSpec (dict : Nat → Option VR) (tag : Nat) (cur : Option (VR × Val)) (ext : Prim → Option Prim)
+    (fresh : Prim) (fallback : VR) : Option (VR × Val) × Option Err :=
+  match cur with
+  | none => (some ((dict tag).getD fallback, .prim fresh), none)
+  | some (vr, .prim p) =>
+    (match ext p with
+     | some p' => (some (vr, .prim p'), none)
+     | none => (cur, some .modify))
+  | some (_, _) => (cur, some .incompatibleTypes)
+
+/-- repaired reading of "append … as an additional value, creating the attribute if it does not exist yet": the
 value has the kind of the attribute's VR (an empty one takes it first); a value that cannot be
 extended, or a sequence attribute, is an error and nothing changes -/
-def pushSpec (dict : Nat → Option VR) (tag : Nat) (cur : Option (VR × Val)) (ext mk : Prim → Option Prim)
+def pushSpecRepaired (dict : Nat → Option VR) (tag : Nat) (cur : Option (VR × Val)) (ext mk : Prim → Option Prim)
     (fallback : VR) : Option (VR × Val) × Option Err :=
   match cur with
   | none =>
@@ -431,8 +477,8 @@ def leafSpec (dict : Nat → Option VR) (tag : Nat) (cur : Option (VR × Val)) (
   | .setStrIfMissing s => (if cur.isNone then reset (.str s) else cur, none)
   | .replace p => (if cur.isSome then reset p else cur, none)
   | .replaceStr s => (if cur.isSome then reset (.str s) else cur, none)
-  | .pushStr s => push (Prim.extendStr s) (Prim.freshStr s) .UN
-  | .pushNum n => push (Prim.extendNum n) (Prim.extendNum n) n.fallbackVr
+  | .pushStr s => push (Prim.extendStr s) (.str s) .UN
+  | .pushNum n => push (Prim.extendNum n) n.fresh n.fallbackVr
   | .truncate n =>                                            -- "Does nothing if the attribute does not exist"
     (cur.map fun (vr, v) => (vrAfterUpdate vr v, v.truncate n), none)
 
